@@ -307,6 +307,21 @@ func generate() {
 			runCase(tc("refresh", "bearer", acc2, hs("web"), ref2))
 		}
 	}
+	// cross-session pairs: the access token of one session of a user with the refresh token of another session of
+	// the same user opened d seconds later/earlier (issue times forged through explicit expiry claims, right secrets)
+	for _, d := range []int{0, 1, 2, 3, 4, 5, 10, 30, 59, 60, 61, 62, 120, 600, 3600} {
+		for _, sg := range []int{1, -1} {
+			if d == 0 && sg < 0 {
+				continue
+			}
+			acc := recB("HS256", "a", claimsOf('a', "alice", "web", fmt.Sprintf("nr%d", ttlA-100), nil))
+			ref := recB("HS256", "r", claimsOf('r', "alice", "web", fmt.Sprintf("nr%d", ttlR-100+sg*d), nil))
+			runCase(tc("refresh", "bearer", acc, hs("web"), ref))
+			// one half really issued now, the other half of a session d seconds ago / ahead
+			runCase(tc("refresh", "bearer", recI("a", "alice", "web"), hs("web"), recB("HS256", "r", claimsOf('r', "alice", "web", fmt.Sprintf("nr%d", ttlR+sg*d), nil))))
+			runCase(tc("refresh", "bearer", recB("HS256", "a", claimsOf('a', "alice", "web", fmt.Sprintf("nr%d", ttlA+sg*d), nil)), hs("web"), recI("r", "alice", "web")))
+		}
+	}
 	pairA, pairR := recI("a", "alice", "web"), recI("r", "alice", "web")
 	for _, sh := range []string{"bearer", "other", "padded", "one", "three", "double", "none"} {
 		runCase(tc("refresh", sh, pairA, hs("web"), pairR))
